@@ -113,6 +113,16 @@ impl Session {
     pub fn compact(&mut self) -> Result<(), CErr> {
         if c::ndb_compact(self.db) != c::NDB_OK { Err(last_error()) } else { Ok(()) }
     }
+    /// closes the handle (ndb_close), runs `f` on the database path, reopens it (ndb_open)
+    pub fn with_closed<F: FnOnce(&std::path::Path) -> Result<(), String>>(&mut self, f: F) -> Result<(), String> {
+        let db = std::mem::replace(&mut self.db, ptr::null_mut());
+        if c::ndb_close(db) != c::NDB_OK {
+            return Err(last_error().message);
+        }
+        let r = f(&self.path());
+        self.open().map_err(|e| e.message)?;
+        r
+    }
     pub fn reopen(&mut self) -> Result<(), CErr> {
         let db = std::mem::replace(&mut self.db, ptr::null_mut());
         let closed = if c::ndb_close(db) != c::NDB_OK { Some(last_error()) } else { None };
